@@ -222,6 +222,19 @@ def run_api(ctx):
                                                detail=det[0] if det else c["detail"], violation_class=cls))
         report_violation(ctx, path); reported += 1
     if mism: broken.append("correspondence S7(api): %d disagreements, first: %s" % (len(mism), mism[0][:300]))
+    # For C16/C17 the model *is* the property's statement (replace* == model(find_iter, template); accessor
+    # identities) and is proved to have the stated form, so an input on which implementation and model
+    # differ is a failing input of the property itself.
+    own = {"C17": ("replace", "replace_all", "ident", "first_ident", "all_const"),
+           "C16": ("group", "named_group", "named_groups", "groups")}.get(ctx.pid, ())
+    mine_mm = [parse_kv(l) for l in mism if parse_kv(l).get("what") in own]
+    if mine_mm and reported == 0:
+        d = sorted(mine_mm, key=lambda d: len(d.get("pat", "")) + len(d.get("detail", "")))[0]
+        path = write_replay(ctx, "input", dict(kind="failing-input", stream=stream, flags=d.get("flags", "-"), pattern=decode_pat(d.get("pat", "-")),
+                                               pattern_hex=d.get("pat", "-"), haystack_hex=(d.get("hay", "-") if d.get("hay", "-") != "-" else ""),
+                                               what=d.get("what"), detail=d.get("detail", ""), violation_class="model-vs-implementation:" + d.get("what", ""),
+                                               note="implementation result differs from the proved model of the property's statement"))
+        report_violation(ctx, path); reported += 1
     if broken and reported == 0:
         path = write_replay(ctx, "tie", dict(kind="broken-obligation", broken=broken,
                                              note="the theorem or correspondence named here no longer checks; the property evaluation on the implementation found no violating input"))
@@ -246,6 +259,8 @@ def replay_api(ctx, path):
     if obj.get("kind") == "failing-input":
         pvl, mm, out = api_single(obj["pattern"], obj["flags"], obj["haystack_hex"])
         print(out[-1500:])
+        if obj.get("what") and any(parse_kv(l).get("what") == obj["what"] for l in mm):
+            print("VIOLATION property=%s replay=%s" % (ctx.pid, path)); return 1
         if any(parse_kv(l).get("prop") in API_PROPS[ctx.pid][0] for l in pvl):
             print("VIOLATION property=%s replay=%s" % (ctx.pid, path)); return 1
         print("replay: the recorded input no longer violates %s" % ctx.pid); return 0
